@@ -404,7 +404,18 @@ func genReadCase(r *hx.Rand) []string {
 		if r.Chance(1, 12) {
 			script = append(script, genFault(r))
 		}
-		script = append(script, readLine(r, blobs[r.Intn(len(blobs))], cs))
+		b := blobs[r.Intn(len(blobs))]
+		if r.Chance(1, 3) {
+			// serve the reads from a streaming CAS buffer, healthy or failing after k bytes
+			k := "-"
+			if r.Chance(1, 2) {
+				k = fmt.Sprint(r.Range(0, len(b.data)+1))
+			}
+			script = append(script, fmt.Sprintf("getmode stream %d %s %d", r.PickInt(1, 2, 3, 5, 8, 64), k, r.PickInt(14, 13, 2, 5)))
+		} else if r.Chance(1, 6) {
+			script = append(script, "getmode slice")
+		}
+		script = append(script, readLine(r, b, cs))
 	}
 	return script
 }
